@@ -610,19 +610,20 @@ class NativeParser(Parser):
             If False, block comments will be removed
             (they get replaced by an empty placeholder then, which in effect removes them).
         """
-        block_comments = re.findall(r"/\*[\w\W\d\D\s]*?\*/", s_dict.block_content, re.MULTILINE)
-        s_dict.block_comments = {i: block_comments[i] for i in range(len(block_comments))}
+        s_dict.block_comments = {}
 
-        for key, block_comment in s_dict.block_comments.items():
-            placeholder = f"BLOCKCOMMENT{key:06d}"
-            if not comments:
-                placeholder = ""
-            # Replace block comment with placeholder
-            s_dict.block_content = re.sub(
-                re.escape(block_comment),
-                placeholder,
-                s_dict.block_content,
-            )
+        def _replace_with_placeholder(match: Match[str]) -> str:
+            key = len(s_dict.block_comments)
+            s_dict.block_comments[key] = match[0]
+            return f"BLOCKCOMMENT{key:06d}" if comments else ""
+
+        # Replace each block comment with its own placeholder
+        s_dict.block_content = re.sub(
+            r"/\*[\w\W\d\D\s]*?\*/",
+            _replace_with_placeholder,
+            s_dict.block_content,
+            flags=re.MULTILINE,
+        )
 
         return
 
